@@ -22,6 +22,8 @@ import tlc
 from witness import parse_witnesses
 
 ROOT = os.path.dirname(os.path.dirname(os.path.abspath(__file__)))
+# mutant runs redirect evidence/replay output so that they never touch the committed evidence
+OUT = os.environ.get('VERIF_OUT', ROOT)
 FINDINGS = os.path.join(ROOT, 'known_findings.json')
 
 
@@ -78,15 +80,22 @@ class Check:
         return r
 
     # ------------------------------------------------------------------ TLC: witnesses
-    def witnesses(self, label, consts, module='USimW', spec='SpecW', emit='Emit', timeout=3000):
+    def witnesses(self, label, consts, module='USimW', spec='SpecW', emit='Emit', timeout=3000,
+                  invariants=(), coverage=False):
+        """one TLC run: checks the design-level invariants on every state AND prints witness programs"""
         cfg = os.path.join(self.tmp, 'w_%s.cfg' % label)
-        tlc.write_cfg(cfg, spec, consts, invariants=[emit], view='View')
-        r = tlc.run_tlc(module, cfg, timeout=timeout)
+        tlc.write_cfg(cfg, spec, consts, invariants=list(invariants) + [emit], view='View')
+        r = tlc.run_tlc(module, cfg, timeout=timeout, coverage=coverage)
+        if r.violated:
+            sys.stderr.write(r.out[-6000:])
+            raise MachineryError('TLC run %s: the MODEL violates %s' % (label, r.violated))
         if r.errors:
             sys.stderr.write(r.out[-6000:])
             raise MachineryError('witness generation %s failed: %s' % (label, r.errors[:3]))
         ws, bad = parse_witnesses(r.out)
         self.tlc_runs.append({'label': label, 'module': module, 'constants': _jsonable(consts),
+                              'invariants_checked': list(invariants), 'complete': r.complete,
+                              'actions_never_taken': sorted(a for a, (d, g) in r.coverage.items() if g == 0),
                               'generated': r.generated, 'distinct': r.distinct, 'witness_programs': len(ws),
                               'unparsable_witness_lines': bad, 'wall_s': round(r.wall, 1)})
         self.states += r.distinct
@@ -141,13 +150,13 @@ class Check:
                 else:
                     [k for k in self.known_hits if k['id'] == f['id']][0]['count'] += 1
                 return
-        os.makedirs(os.path.join(ROOT, 'replay'), exist_ok=True)
+        os.makedirs(os.path.join(OUT, 'replay'), exist_ok=True)
         body = {'property': self.prop, 'clause': clause, 'position': pos, 'program': program,
                 'trace': trace, 'extra': extra or {'NRoots': getattr(self, 'nroots_hint', None)}}
         h = hashlib.sha1(json.dumps(body, sort_keys=True, default=str).encode()).hexdigest()[:10]
         path = os.path.join('replay', '%s-%s.json' % (self.prop, h))
         if len(self.violations) < 25:
-            with open(os.path.join(ROOT, path), 'w') as fh:
+            with open(os.path.join(OUT, path), 'w') as fh:
                 json.dump(body, fh, indent=1, default=str)
         self.violations.append((clause, path))
 
@@ -169,8 +178,8 @@ class Check:
         ev = {'property_id': self.prop, 'tier': self.tier, 'seed': self.seed, 'level': self.level,
               'coverage': cov, 'assumptions': self.assumptions, 'wall_s': round(wall, 1),
               'violations': len(self.violations)}
-        os.makedirs(os.path.join(ROOT, 'evidence'), exist_ok=True)
-        with open(os.path.join(ROOT, 'evidence', self.prop + '.json'), 'w') as fh:
+        os.makedirs(os.path.join(OUT, 'evidence'), exist_ok=True)
+        with open(os.path.join(OUT, 'evidence', self.prop + '.json'), 'w') as fh:
             json.dump(ev, fh, indent=1, default=str)
         shutil.rmtree(self.tmp, ignore_errors=True)
         for k in self.known_hits:
